@@ -108,8 +108,78 @@ CONVERSIONS = [
     ('string', 'x', 'float', UNCONVERTIBLE),
     ('string', 'not a date', 'date', UNCONVERTIBLE),
     ('string', 'x', '2-tuple', UNCONVERTIBLE),
+    # ---- value content: values that are falsy / empty looking, before or after the conversion.  An empty string
+    # stands for 'no content': in a number it is the documented default of that dtype (odml.dtypes.default_values:
+    # int 0, float 0.0), in a date it is *some* date (the default is the current day: only the type is checked).
+    ('string', '', 'int', 0),
+    ('string', '', 'float', 0.0),
+    ('string', '', 'text', ''),
+    ('string', ' ', 'text', ' '),
+    ('text', '', 'string', ''),
+    ('text', ' ', 'string', ' '),
+    ('text', '', 'int', 0),
+    ('string', '', 'date', ('any', 'date')),
+    ('string', '0', 'int', 0),
+    ('string', '0.0', 'float', 0.0),
+    ('int', 0, 'float', 0.0),
+    ('int', 0, 'string', '0'),
+    ('float', 0.0, 'int', 0),
+    ('float', 0.0, 'string', '0.0'),
+    # ---- ordinary companions of the values above
+    ('string', '8', 'int', 8),
+    ('string', '2.5', 'float', 2.5),
+    ('string', 'b', 'text', 'b'),
+    ('string', 'c', 'text', 'c'),
+    ('text', 'b', 'string', 'b'),
+    ('text', 'c', 'string', 'c'),
+    ('text', '7', 'int', 7),
+    ('text', '8', 'int', 8),
+    ('string', '2021-03-04', 'date', dt.date(2021, 3, 4)),
+    ('int', 8, 'float', 8.0),
+    ('int', 8, 'string', '8'),
+    ('float', 3.0, 'int', 3),
+    ('float', 2.5, 'string', '2.5'),
+    ('float', 3.5, 'string', '3.5'),
 ]
-CONV = {(sd, h._val(sv), dd): (UNCONVERTIBLE if ev is UNCONVERTIBLE else h._val(ev)) for sd, sv, dd, ev in CONVERSIONS}
+ANY = 'any'             # ('any', <type tag of harness._val>): some value of that type, no matter which
+
+
+def _is_any(conv):
+    return isinstance(conv, tuple) and len(conv) == 2 and conv[0] == ANY
+
+
+CONV = {(sd, h._val(sv), dd): (ev if ev is UNCONVERTIBLE or _is_any(ev) else h._val(ev)) for sd, sv, dd, ev in CONVERSIONS}
+RAW_CONV = {(sd, repr(sv), dd): ev for sd, sv, dd, ev in CONVERSIONS}
+
+
+def value_class(v):
+    """Why a (snapshot) value is special: values that look empty / false although they are legitimate content."""
+    if v == '':
+        return 'empty-string'
+    if isinstance(v, str):
+        return 'blank-string' if not v.strip() else None
+    if v == 0 and isinstance(v, int):
+        return 'zero'
+    if isinstance(v, tuple) and v:
+        if v[0] == 'float' and float(v[1]) == 0.0:
+            return 'zero'
+        if v[0] == 'bool' and v[1] is False:
+            return 'false'
+        if v[0] == 'date' and v[1] == dt.date.min.isoformat():
+            return 'min-date'
+        if v[0] == 'time' and v[1] == dt.time(0, 0).isoformat():
+            return 'midnight'
+        if v[0] == 'datetime' and v[1] == dt.datetime.min.isoformat():
+            return 'min-datetime'
+        if v[0] == 'list' and all(x in ('', '0', '0.0') or (isinstance(x, str) and not x.strip()) for x in v[1:]):
+            return 'empty-looking-tuple'
+    return None
+
+
+def _special(values):
+    """Label suffix naming the special values among `values` ('' when all are ordinary)."""
+    kinds = sorted({value_class(v) for v in values} - {None})
+    return (', %s value' % '/'.join(kinds)) if kinds else ''
 
 EMPTY_SEC = {'_definition': None, '_reference': None, 'props': (), 'sections': (), 'type': None, '_name': None}
 EMPTY_PROP = {'_dtype': None, '_unit': None, '_uncertainty': None, '_definition': None, '_reference': None,
@@ -195,10 +265,17 @@ def check_prop_post(pre_d, pre_s, post, strict, path, problems):
     if ddt is None or sdt is None or sdt == ddt:
         lacked = [v for v in pre_s['values'] if v not in own]
         if sorted(map(repr, extra)) != sorted(map(repr, lacked)):
-            problems.append(('values-gained', 'same-dtype', path,
+            rest = list(extra)
+            missing = []
+            for v in lacked:
+                if v in rest:
+                    rest.remove(v)
+                else:
+                    missing.append(v)
+            problems.append(('values-gained', 'same-dtype' + _special(missing + rest), path,
                              'own %r, src %r: gained %r, contract requires %r' % (own, list(pre_s['values']), extra, lacked)))
     else:
-        allowed = []
+        allowed, any_tags = [], []
         for v in pre_s['values']:
             conv = CONV.get((sdt, v, ddt))
             if conv is None:
@@ -207,14 +284,25 @@ def check_prop_post(pre_d, pre_s, post, strict, path, problems):
                 problems.append(('values-gained', 'unconvertible %s->%s' % (sdt, ddt), path,
                                  'merge succeeded although src value %r cannot be converted to %s; now %r' % (v, ddt, got)))
                 return
+            if _is_any(conv):
+                any_tags.append((conv[1], v))
+                continue
             allowed.append(conv)
             if conv not in got:
-                problems.append(('values-gained', 'converted %s->%s' % (sdt, ddt), path,
+                problems.append(('values-gained', 'converted %s->%s%s' % (sdt, ddt, _special([v, conv])), path,
                                  'src value %r must be gained as %r; now %r' % (v, conv, got)))
-        for v in extra:
-            if v not in allowed:
-                problems.append(('values-gained', 'converted %s->%s' % (sdt, ddt), path,
-                                 'gained %r which is not a converted src value (%r)' % (v, allowed)))
+        free = [v for v in extra if v not in allowed]
+        for tag, v in any_tags:
+            # the converted value is not pinned down, only its type: one gained value of that type per such src value
+            hit = next((x for x in free if isinstance(x, tuple) and x and x[0] == tag), None)
+            if hit is None:
+                problems.append(('values-gained', 'converted %s->%s%s' % (sdt, ddt, _special([v])), path,
+                                 'src value %r must be gained as a %s value; now %r' % (v, tag, got)))
+            else:
+                free.remove(hit)
+        for v in free:
+            problems.append(('values-gained', 'converted %s->%s%s' % (sdt, ddt, _special([v])), path,
+                             'gained %r which is not a converted src value (%r)' % (v, allowed)))
 
 
 def check_sec_post(pre_d, pre_s, post, strict, path, problems):
@@ -438,6 +526,90 @@ PROP_FEATURES = [
     ('int-values-large', P('pf', 'int', [10 ** 12]), P('pf', 'int', [-3, 10 ** 12], unit='mV')),
 ]
 
+# ---- value content: values that are legitimate content but look empty / false ('' and ' ', 0, 0.0, False, the
+# smallest date, midnight, tuples of empty looking elements), for every dtype; alone and among ordinary values, as
+# first / middle / last value of src; dest empty (typed / untyped), lacking the value, holding it already (as its
+# first / last / only value); the same for src values that are converted to another dtype (strict off; strict on:
+# dtype conflict).  The oracle is the general one (check_prop_post): own values kept in their order, every src value
+# dest lacked is gained - whatever the value looks like.
+
+# (dtype, special values, ordinary values, an ordinary value dest has of its own)
+VALUE_CONTENT = [
+    ('string', [('empty-string', ''), ('blank-string', ' ')], ['b', 'c'], 'a'),
+    ('text', [('empty-string', ''), ('blank-string', ' ')], ['line1\nline2', 'c'], 'a\nb'),
+    ('int', [('zero', 0)], [2, 3], 1),
+    ('float', [('zero', 0.0)], [2.5, 3.5], 1.5),
+    ('boolean', [('false', False)], [True], True),
+    ('date', [('min-date', dt.date.min)], [D1, D2], dt.date(2019, 5, 6)),
+    ('time', [('midnight', dt.time(0, 0, 0))], [dt.time(4, 5, 6), dt.time(7, 8, 9)], dt.time(1, 2, 3)),
+    ('datetime', [('min-datetime', dt.datetime.min)], [dt.datetime(2021, 1, 2, 3, 4, 5), dt.datetime(2022, 1, 2, 3, 4, 5)],
+     dt.datetime(2020, 1, 2, 3, 4, 5)),
+    ('url', [('empty-string', '')], ['http://b.org', 'http://c.org'], 'http://a.org'),
+    ('person', [('empty-string', '')], ['Roe, R', 'Poe, P'], 'Doe, J'),
+    ('2-tuple', [('zero-tuple', '(0;0)'), ('empty-elements-tuple', '(;)')], ['(3;4)', '(5;6)'], '(1;2)'),
+]
+# (src dtype, special value, ordinary src values, dest dtype, an ordinary value dest has of its own); what the
+# values become is written down in CONVERSIONS
+VALUE_CONVERSIONS = [
+    ('string', ('empty-string', ''), ['7', '8'], 'int', 1),
+    ('string', ('empty-string', ''), ['1.5', '2.5'], 'float', 0.5),
+    ('string', ('empty-string', ''), ['b', 'c'], 'text', 'a\nb'),
+    ('string', ('blank-string', ' '), ['b', 'c'], 'text', 'a\nb'),
+    ('text', ('empty-string', ''), ['b', 'c'], 'string', 'a'),
+    ('text', ('blank-string', ' '), ['b', 'c'], 'string', 'a'),
+    ('text', ('empty-string', ''), ['7', '8'], 'int', 1),
+    ('string', ('empty-string', ''), ['2020-01-02', '2021-03-04'], 'date', dt.date(2019, 5, 6)),
+    ('string', ('zero-as-text', '0'), ['7', '8'], 'int', 1),
+    ('string', ('zero-as-text', '0.0'), ['1.5', '2.5'], 'float', 0.5),
+    ('int', ('zero', 0), [7, 8], 'float', 0.5),
+    ('int', ('zero', 0), [7, 8], 'string', 'a'),
+    ('float', ('zero', 0.0), [2.0, 3.0], 'int', 1),
+    ('float', ('zero', 0.0), [2.5, 3.5], 'string', 'a'),
+]
+
+
+def _placements(special, ordinary, others):
+    """src value lists: the special value alone, as first / middle / last of several, next to another special one."""
+    out = [('alone', [special]), ('first', [special] + ordinary), ('last', ordinary + [special])]
+    if len(ordinary) >= 2:
+        out.insert(2, ('middle', ordinary[:1] + [special] + ordinary[1:]))
+    for other in others:
+        out.append(('with-other-special', [special, ordinary[0], other]))
+    return out
+
+
+def value_features():
+    """[(label, dest spec, src spec, core)] in the format of PROP_FEATURES; core marks the part the quick tier
+    also runs inside Section trees."""
+    out = []
+    for dtype, specials, ordinary, own in VALUE_CONTENT:
+        for tag, f in specials:
+            others = [x for _, x in specials if x != f]
+            for place, svals in _placements(f, ordinary, others):
+                dests = [('dest-empty-typed', dtype, []), ('dest-empty-untyped', None, []), ('dest-lacks-it', dtype, [own]),
+                         ('dest-has-it-first', dtype, [f, own]), ('dest-has-it-last', dtype, [own, f]),
+                         ('dest-has-only-it', dtype, [f])]
+                for dlabel, ddt, dvals in dests:
+                    core = place in ('alone', 'middle', 'first' if len(ordinary) < 2 else 'middle') and \
+                        dlabel in ('dest-lacks-it', 'dest-has-it-last') and tag != 'empty-elements-tuple'
+                    out.append(('value-content %s %s %s, %s' % (dtype, tag, place, dlabel),
+                                P('pf', ddt, dvals), P('pf', dtype, svals, unit='mV'), core))
+    for sdt, (tag, f), ordinary, ddt, own in VALUE_CONVERSIONS:
+        conv = RAW_CONV[(sdt, repr(f), ddt)]
+        for place, svals in _placements(f, ordinary, []):
+            dests = [('dest-empty-typed', []), ('dest-lacks-it', [own])]
+            if not _is_any(conv):
+                dests.append(('dest-has-it-converted', [own, conv]))
+            for dlabel, dvals in dests:
+                core = place in ('alone', 'middle') and dlabel == 'dest-lacks-it'
+                out.append(('value-content %s %s %s converted to %s, %s' % (sdt, tag, place, ddt, dlabel),
+                            P('pf', ddt, dvals), P('pf', sdt, svals, definition='sd'), core))
+    return out
+
+
+VALUE_FEATURES = value_features()
+
+
 SEC_FEATURES = [
     ('section-definition-conflict', {'definition': 'alpha'}, {'definition': 'beta'}),
     ('section-definition-case-whitespace-only', {'definition': 'Some Def'}, {'definition': ' some  def'}),
@@ -647,7 +819,7 @@ LATER = ['dtype-conflict-string-into-int', 'dtype-unconvertible-string-into-int'
 
 
 def _feature(label):
-    return next(f for f in PROP_FEATURES + SEC_FEATURES if f[0] == label)
+    return next(f[:3] for f in PROP_FEATURES + SEC_FEATURES + VALUE_FEATURES if f[0] == label)
 
 
 def _chain_or_wide(shape):
